@@ -120,14 +120,14 @@ Print Assumptions C19_route.
 
 (** Redirects: in the trace of one call every send is justified by the reply before it — after
     MOVED a the next send is the plain command to a, after ASK a it is [ASKING; command] to a, a
-    retry follows only a retry-class reply, an expired connection is followed by a transparent
+    retry follows only a retry-class reply of a retryable command under the policy (see C28), an expired connection is followed by a transparent
     re-send, and nothing follows any other reply.  The reply handed to the caller is the last reply
     on the wire (or the context error when the last attempt was not written).  With
     MaxMovedRedirections = max > 0 at most max redirects are followed.  Enough fuel = one step per
     environment item. *)
 Theorem C19_moved_ask : forall c slot retryable to_replica st env tr out st',
   cluster_do c slot retryable to_replica st env = (tr, out, st') ->
-  chain_ok tr /\
+  chain_ok c retryable tr /\
   out <> COutOfFuel /\
   (forall r, out = CDone r -> r = RCtx \/ exists s, tr <> [] /\ sreply (last tr s) = r) /\
   (0 < cc_max c -> Z.of_nat (credirects tr) <= cc_max c).
